@@ -29,6 +29,8 @@ import (
 	"sync"
 	"testing"
 	"unicode/utf8"
+
+	"golang.org/x/text/cases"
 )
 
 type standinViolation struct {
@@ -385,6 +387,30 @@ func (c *standinChecker) checkInline(src []byte, in *Inline, text []byte, inLink
 			if _, ok := refs[ref]; !ok {
 				c.fail("C12/ref-in-map", "reference %q of %q is not a key of the reference map", ref, text)
 			}
+			// the reference is the normalized label (text of the label node, or of the link text for the
+			// collapsed and shortcut forms); checked where no container prefix can sit inside the label
+			if !bytes.ContainsAny(src, ">-+*0123456789\t") {
+				label := ""
+				if lab := in.Child(in.ChildCount() - 1); lab != nil && lab.Kind() == LinkLabelKind {
+					lt := src[lab.Span().Start:lab.Span().End]
+					if len(lt) >= 2 {
+						label = string(lt[1 : len(lt)-1])
+					}
+				} else {
+					t := text
+					if kind == ImageKind && len(t) > 0 {
+						t = t[1:]
+					}
+					if i := bytes.IndexByte(t, ']'); i >= 1 && !bytes.Contains(t[1:i], []byte("[")) && !bytes.Contains(t[1:i], []byte("\\")) {
+						label = string(t[1:i])
+					}
+				}
+				if label != "" {
+					if want := standinNormalizeLabel(label); want != ref {
+						c.fail("C12/normal-form", "%s %q has reference %q, its label normalizes to %q", kind, text, ref, want)
+					}
+				}
+			}
 		}
 		// C13
 		if kind == LinkKind && (len(text) < 2 || text[0] != '[') {
@@ -428,6 +454,51 @@ func (c *standinChecker) checkInline(src []byte, in *Inline, text []byte, inLink
 		}
 		if !ok {
 			c.fail("C13/hard-break", "hard line break text %q", text)
+		}
+	}
+}
+
+// standinNormalizeLabel: Unicode case fold, strip, collapse internal whitespace to one space (CommonMark 0.30, "matches").
+func standinNormalizeLabel(label string) string {
+	return cases.Fold().String(strings.Join(strings.FieldsFunc(label, func(r rune) bool { return r == ' ' || r == '\t' || r == '\n' || r == '\r' }), " "))
+}
+
+// standinNested: a random inline of nested emphasis, links, images and code spans (depth-bounded), for the clauses
+// about nesting (no link inside a link, children in order, shapes of wrapped constructs).
+func standinNested(rng *rand.Rand, depth int, sb *[]byte) {
+	if depth == 0 {
+		*sb = append(*sb, "ab c"[rng.Intn(4)])
+		return
+	}
+	n := 1 + rng.Intn(3)
+	for i := 0; i < n; i++ {
+		switch rng.Intn(12) {
+		case 0, 1:
+			*sb = append(*sb, '*')
+			standinNested(rng, depth-1, sb)
+			*sb = append(*sb, '*')
+		case 2:
+			*sb = append(*sb, "**"...)
+			standinNested(rng, depth-1, sb)
+			*sb = append(*sb, "**"...)
+		case 3:
+			*sb = append(*sb, '_')
+			standinNested(rng, depth-1, sb)
+			*sb = append(*sb, '_')
+		case 4, 5:
+			*sb = append(*sb, '[')
+			standinNested(rng, depth-1, sb)
+			*sb = append(*sb, [...]string{"](/u)", "](/u \"t\")", "][a]", "][]", "]", "](<> 't')"}[rng.Intn(6)]...)
+		case 6, 7:
+			*sb = append(*sb, "!["...)
+			standinNested(rng, depth-1, sb)
+			*sb = append(*sb, [...]string{"](/u)", "][a]", "]"}[rng.Intn(3)]...)
+		case 8:
+			*sb = append(*sb, "`x`"...)
+		case 9:
+			*sb = append(*sb, [...]string{"\n", " ", "  \n", "\\\n", "<b>", "&amp;"}[rng.Intn(6)]...)
+		default:
+			*sb = append(*sb, "ab c*_"[rng.Intn(6)])
 		}
 	}
 }
@@ -523,45 +594,84 @@ func TestVerifStandin(t *testing.T) {
 			mu.Unlock()
 		}()
 	}
+	// the inputs are produced by a pool of generators, one job per sub-tree of the enumeration
+	jobs := make(chan func(emit func([]byte)), 256)
+	var gw sync.WaitGroup
+	for g := 0; g < 4; g++ {
+		gw.Add(1)
+		go func() {
+			defer gw.Done()
+			for job := range jobs {
+				job(func(b []byte) { inputs <- b })
+			}
+		}()
+	}
 	// (1) every sequence of at most `exhaustive` tokens
 	nt := len(standinTokens)
-	var rec func(idx []int)
-	rec = func(idx []int) {
-		inputs <- standinCompose(idx)
+	var rec func(idx []int, emit func([]byte))
+	rec = func(idx []int, emit func([]byte)) {
+		emit(standinCompose(idx))
 		if len(idx) == exhaustive {
 			return
 		}
 		for i := 0; i < nt; i++ {
-			rec(append(idx[:len(idx):len(idx)], i))
+			rec(append(idx[:len(idx):len(idx)], i), emit)
 		}
 	}
-	rec(nil)
-	// (2) every string of at most charLen characters over two small alphabets
-	for _, alphabet := range []string{"a *_[](`\n", "a-#> 1.\n\t"} {
-		var recc func(s []byte)
-		recc = func(s []byte) {
-			if len(s) > 0 {
-				inputs <- append([]byte(nil), s...)
-			}
-			if len(s) == charLen {
+	jobs <- func(emit func([]byte)) { emit(nil) }
+	for i := 0; i < nt; i++ {
+		i := i
+		jobs <- func(emit func([]byte)) { rec([]int{i}, emit) }
+	}
+	// (2) every string of at most n characters over small alphabets
+	for _, ab := range []struct {
+		alphabet string
+		n        int
+	}{{"a *_[](`\n", charLen}, {"a-#> 1.\n\t", charLen}, {"a* _", charLen + 4}, {"`a\n\t>- ", charLen + 1}} {
+		ab := ab
+		var recc func(s []byte, emit func([]byte))
+		recc = func(s []byte, emit func([]byte)) {
+			emit(append([]byte(nil), s...))
+			if len(s) == ab.n {
 				return
 			}
-			for i := 0; i < len(alphabet); i++ {
-				recc(append(s, alphabet[i]))
+			for i := 0; i < len(ab.alphabet); i++ {
+				recc(append(s, ab.alphabet[i]), emit)
 			}
 		}
-		recc(nil)
-	}
-	// (3) seeded random longer sequences of tokens
-	rng := rand.New(rand.NewSource(seed + 1))
-	for i := 0; i < randomN; i++ {
-		l := exhaustive + 1 + rng.Intn(randomMax-exhaustive)
-		idx := make([]int, l)
-		for k := range idx {
-			idx[k] = rng.Intn(nt)
+		for i := 0; i < len(ab.alphabet); i++ {
+			for k := 0; k < len(ab.alphabet); k++ {
+				i, k := i, k
+				jobs <- func(emit func([]byte)) { recc([]byte{ab.alphabet[i], ab.alphabet[k]}, emit) }
+			}
+			i := i
+			jobs <- func(emit func([]byte)) { emit([]byte{ab.alphabet[i]}) }
 		}
-		inputs <- standinCompose(idx)
 	}
+	// (3) seeded random longer sequences of tokens, and (4) seeded random nested inlines with definitions
+	for part := 0; part < 16; part++ {
+		part := part
+		jobs <- func(emit func([]byte)) {
+			rng := rand.New(rand.NewSource(seed*1000 + int64(part) + 1))
+			for i := 0; i < randomN/16; i++ {
+				l := exhaustive + 1 + rng.Intn(randomMax-exhaustive)
+				idx := make([]int, l)
+				for k := range idx {
+					idx[k] = rng.Intn(nt)
+				}
+				emit(standinCompose(idx))
+			}
+			for i := 0; i < randomN/64; i++ {
+				var sb []byte
+				sb = append(sb, [...]string{"", "> ", "- ", "# "}[rng.Intn(4)]...)
+				standinNested(rng, 1+rng.Intn(3), &sb)
+				sb = append(sb, "\n\n[a]: /r\n"...)
+				emit(sb)
+			}
+		}
+	}
+	close(jobs)
+	gw.Wait()
 	close(inputs)
 	wg.Wait()
 	var keys []string
@@ -574,8 +684,8 @@ func TestVerifStandin(t *testing.T) {
 		fmt.Print("STANDIN-VIOLATION ")
 		enc.Encode(first[k])
 	}
-	fmt.Printf("STANDIN-SUMMARY {\"inputs\":%d,\"tokens\":%d,\"exhaustive_tokens\":%d,\"char_len\":%d,\"random\":%d,\"random_max_tokens\":%d,\"seed\":%d,\"violations\":%d}\n",
-		total, nt, exhaustive, charLen, randomN, randomMax, seed, len(keys))
+	fmt.Printf("STANDIN-SUMMARY {\"inputs\":%d,\"tokens\":%d,\"exhaustive_tokens\":%d,\"alphabets\":\"9 chars up to length %d (two alphabets), 4 chars up to %d, 7 chars up to %d\",\"random_token_sequences\":%d,\"random_max_tokens\":%d,\"random_nested_inlines\":%d,\"seed\":%d,\"violations\":%d}\n",
+		total, nt, exhaustive, charLen, charLen+4, charLen+1, randomN/16*16, randomMax, randomN/64*16, seed, len(keys))
 	if len(keys) > 0 {
 		t.Fail()
 	}
